@@ -310,6 +310,34 @@ class QueryHandler:
 
         return answer_set
 
+    def async_remember_query(self, msg: DNSIncoming, now: float) -> None:
+        """Note in the question history that the questions of a query were heard at this time.
+
+        For a query that is not answered: the copy of a query that was
+        answered less than a second ago (the same bytes, which another querier
+        with the same cache sends as well). The question was heard again all
+        the same, and heard questions need not be asked.
+        """
+        if msg.is_probe():
+            return
+        known_answers_by_name: Optional[Dict[str, List[DNSRecord]]] = None
+        for question in msg._questions:
+            if question.unique or not self._get_answer_strategies(question):
+                continue
+            if known_answers_by_name is None:
+                known_answers_by_name = {}
+                for record in DNSRRSet(msg.answers()).lookup_set():
+                    known_answers_by_name.setdefault(record.key, []).append(record)
+            self.question_history.add_question_at_time(
+                question,
+                now,
+                {
+                    record
+                    for record in known_answers_by_name.get(question.key, ())
+                    if question.type in (record.type, _TYPE_ANY)
+                },
+            )
+
     def async_response(  # pylint: disable=unused-argument
         self, msgs: List[DNSIncoming], ucast_source: bool
     ) -> Optional[QuestionAnswers]:
